@@ -79,6 +79,16 @@ func (a *sqlAST) computeLiteralTypes() {
 			if _, ok := t.Underlying().(*types.Interface); ok {
 				return may(t.Underlying(), depth+1)
 			}
+			isNode := false
+			for _, tn := range a.named {
+				if tn == t.Obj() {
+					isNode = true
+				}
+			}
+			if !isNode {
+				// a plain helper struct of the package (ShowTablesOpt): it holds whatever its fields hold
+				return may(t.Underlying(), depth+1)
+			}
 			return false // decided by the fixpoint over named types
 		case *types.Pointer:
 			return may(t.Elem(), depth+1)
@@ -147,6 +157,8 @@ func runC16(p *Program, r *Report) {
 		return
 	}
 	ruleR166(p, r)
+	r.Rule("R16.7", "E4", 30, "literals kept as plain strings are redacted too: every string-typed field of a data-statement AST type that Format prints is classified (frozen table: keyword/operator text, identifier, or literal text); a field that holds literal text is overwritten by a method of the normalizer; an unclassified field is a violation (a new place where the grammar may keep a literal outside SQLVal)")
+	ruleR167(p, r, a)
 	ruleR161(p, r, a)
 	ruleR162(p, r, a)
 	ruleR163(p, r)
@@ -257,11 +269,95 @@ func (a *sqlAST) structFieldUse(tn *types.TypeName) (st *types.Struct, printed, 
 		}
 	}
 	if walkDecl != nil {
-		for f := range fieldsReadOffReceiver(a.pk, tn, walkDecl, ms) {
+		for f := range fieldsPassedToWalk(a.pk, tn, walkDecl, ms) {
 			walked[f] = true
 		}
 	}
 	return
+}
+
+// fieldsPassedToWalk: the receiver's fields that walkSubtree (or a method of the same receiver it calls) hands to
+// Walk: the field, or something selected from it, appears in an argument of a call of Walk / a visit function, or
+// the field is ranged over in a loop whose body makes such a call. Merely reading a field (a nil test) is not walking it.
+func fieldsPassedToWalk(pk *packages.Package, tn *types.TypeName, fd *ast.FuncDecl, methods map[string]*ast.FuncDecl) map[*types.Var]bool {
+	out := map[*types.Var]bool{}
+	seen := map[*ast.FuncDecl]bool{}
+	var visit func(fd *ast.FuncDecl)
+	visit = func(fd *ast.FuncDecl) {
+		if fd == nil || fd.Body == nil || seen[fd] {
+			return
+		}
+		seen[fd] = true
+		recv := recvIdent(fd, pk.TypesInfo)
+		if recv == nil {
+			return
+		}
+		fieldsIn := func(e ast.Node) []*types.Var {
+			var fs []*types.Var
+			ast.Inspect(e, func(n ast.Node) bool {
+				sel, ok := n.(*ast.SelectorExpr)
+				if !ok {
+					return true
+				}
+				if id, ok := ast.Unparen(sel.X).(*ast.Ident); ok && pk.TypesInfo.Uses[id] == recv {
+					if v, ok := pk.TypesInfo.Uses[sel.Sel].(*types.Var); ok && v.IsField() {
+						fs = append(fs, v)
+					}
+				}
+				return true
+			})
+			return fs
+		}
+		isWalkCall := func(c *ast.CallExpr) bool {
+			switch f := c.Fun.(type) {
+			case *ast.Ident:
+				return f.Name == "Walk" || f.Name == "visit"
+			case *ast.SelectorExpr:
+				return f.Sel.Name == "Walk" || f.Sel.Name == "walkSubtree"
+			}
+			return false
+		}
+		ast.Inspect(fd.Body, func(n ast.Node) bool {
+			switch x := n.(type) {
+			case *ast.CallExpr:
+				if isWalkCall(x) {
+					for _, arg := range x.Args {
+						for _, f := range fieldsIn(arg) {
+							out[f] = true
+						}
+					}
+					if sel, ok := x.Fun.(*ast.SelectorExpr); ok {
+						for _, f := range fieldsIn(sel.X) {
+							out[f] = true // node.F.walkSubtree(visit)
+						}
+					}
+				}
+				if sel, ok := x.Fun.(*ast.SelectorExpr); ok {
+					if id, ok := ast.Unparen(sel.X).(*ast.Ident); ok && pk.TypesInfo.Uses[id] == recv {
+						if fo, ok := pk.TypesInfo.Uses[sel.Sel].(*types.Func); ok && recvNamed(fo) == tn {
+							visit(methods[fo.Name()])
+						}
+					}
+				}
+			case *ast.RangeStmt:
+				walks := false
+				ast.Inspect(x.Body, func(m ast.Node) bool {
+					if c, ok := m.(*ast.CallExpr); ok && isWalkCall(c) {
+						walks = true
+					}
+					return true
+				})
+				if walks {
+					for _, f := range fieldsIn(x.X) {
+						out[f] = true
+					}
+				}
+			}
+			return true
+		})
+	}
+	visit(fd)
+	return out
 }
 
 // reachable returns the named AST types reachable through fields from the
@@ -1103,4 +1199,109 @@ func init() {
 	mut("C16", "partially parsed DDL logged with its text again (original defect)", "sqlparser/ast_methods.go", "			log.Printf(\"ignoring error parsing DDL: %v\", tokenizer.LastError)", "			log.Printf(\"ignoring error parsing DDL '%s': %v\", sql, tokenizer.LastError)", "R16.6", "ParseWithDialect")
 	mut("C16", "a damaged capture-file entry is quoted in the error that is logged", "acra-censor/common/logging_logic.go", "			if err = json.Unmarshal(line, &oneQuery); err != nil {\n				return nil, err\n			}", "			if err = json.Unmarshal(line, &oneQuery); err != nil {\n				return nil, &os.PathError{Op: \"malformed entry\", Path: string(line), Err: err}\n			}", "R16.6", "readStoredQueries")
 	mut("C16", "unparsable statement attached to the debug line", "sqlparser/ast_methods.go", "			log.WithError(err).Debugln(\"ignoring error of non parsed sql statement\")", "			log.WithError(err).WithField(\"statement\", sql).Debugln(\"ignoring error of non parsed sql statement\")", "R16.6", "Parse")
+}
+
+// ---- R16.7
+// class of every printed string field of the data-statement AST types, by reading the grammar actions that fill them
+var r167Fields = map[string]string{
+	"BinaryExpr.Operator":       "keyword: operator token",
+	"ColIdent.val":              "identifier",
+	"ColIdent.lowered":          "identifier",
+	"CollateExpr.Charset":       "identifier: collation name",
+	"ColumnType.Type":           "keyword: type name",
+	"ColumnType.Charset":        "identifier: charset name",
+	"ColumnType.Collate":        "identifier: collation name",
+	"ComparisonExpr.Operator":   "keyword: operator token",
+	"ConvertType.Type":          "keyword: type name",
+	"ConvertType.Operator":      "keyword",
+	"ConvertType.Charset":       "identifier: charset name",
+	"ConvertUsingExpr.Type":     "identifier: charset name",
+	"Default.ColName":           "identifier",
+	"GroupConcatExpr.Distinct":  "keyword",
+	"GroupConcatExpr.Separator": "literal",
+	"IndexHints.Type":           "keyword",
+	"Insert.Action":             "keyword",
+	"Insert.Ignore":             "keyword",
+	"IntervalExpr.Unit":         "keyword: unit name",
+	"IsExpr.Operator":           "keyword",
+	"JoinTableExpr.Join":        "keyword",
+	"MatchExpr.Option":          "keyword",
+	"NotParsedStatement.Query":  "raw statement: never printed into the redacted form (decided by R16.4)",
+	"Order.Direction":           "keyword",
+	"RangeCond.Operator":        "keyword",
+	"Select.Cache":              "keyword",
+	"Select.Distinct":           "keyword",
+	"Select.Hints":              "keyword",
+	"Select.Lock":               "keyword",
+	"Set.Scope":                 "keyword",
+	"Show.Type":                 "keyword or identifier: what is shown",
+	"Show.Scope":                "keyword",
+	"ShowFilter.Like":           "literal",
+	"TableIdent.v":              "identifier",
+	"UnaryExpr.Operator":        "keyword",
+	"Union.Type":                "keyword",
+	"Union.Lock":                "keyword",
+	"Where.Type":                "keyword",
+}
+
+func ruleR167(p *Program, r *Report, a *sqlAST) {
+	inScope := a.reachable(p, schemaStatements)
+	if inScope == nil {
+		r.Anchor("R16.7", "sqlparser.Statement")
+		return
+	}
+	// fields the normalizer's own methods assign
+	assigned := map[string]bool{}
+	for _, fn := range p.srcFns {
+		if fnPkgPath(fn) != acraMod+"/sqlparser" || fn.Signature.Recv() == nil || !strings.HasSuffix(fn.Signature.Recv().Type().String(), "sqlparser.normalizer") {
+			continue
+		}
+		for _, b := range fn.Blocks {
+			for _, in := range b.Instrs {
+				st, ok := in.(*ssa.Store)
+				if !ok {
+					continue
+				}
+				if fa, ok := st.Addr.(*ssa.FieldAddr); ok {
+					if pt, ok := fa.X.Type().Underlying().(*types.Pointer); ok {
+						if nt, ok := pt.Elem().(*types.Named); ok {
+							if stt, ok := nt.Underlying().(*types.Struct); ok {
+								assigned[nt.Obj().Name()+"."+stt.Field(fa.Field).Name()] = true
+							}
+						}
+					}
+				}
+			}
+		}
+	}
+	for _, tn := range a.named {
+		st, printed, _, fmtDecl, _ := a.structFieldUse(tn)
+		if st == nil || fmtDecl == nil || !inScope[tn] {
+			continue
+		}
+		for i := 0; i < st.NumFields(); i++ {
+			f := st.Field(i)
+			b, ok := f.Type().Underlying().(*types.Basic)
+			if !ok || b.Info()&types.IsString == 0 || !printed[f] {
+				continue
+			}
+			key := tn.Name() + "." + f.Name()
+			class, known := r167Fields[key]
+			pos := p.Pos(f.Pos())
+			switch {
+			case !known:
+				r.Bad("R16.7", "sqlparser."+tn.Name(), "string field "+f.Name(), pos, "a string field that Format prints and that is not classified: if the grammar stores literal text in it (as it does for the group_concat separator and SHOW ... LIKE) the normalizer never sees it and it survives in the redacted statement")
+			case class == "literal":
+				r.Check(assigned[key], "R16.7", "sqlparser."+tn.Name(), "string field "+f.Name(), pos, "holds literal text; a method of the normalizer overwrites it", "holds literal text as a plain string and no method of the normalizer assigns it: the literal survives in the redacted statement")
+			default:
+				r.Confirmed("R16.7", "sqlparser."+tn.Name(), "string field "+f.Name(), pos, class)
+			}
+		}
+	}
+}
+
+func init() {
+	mut("C16", "group_concat separator no longer replaced by the normalizer (original defect)", "sqlparser/normalizer.go", "	node.Separator = \" separator ':\" + bvname + \"'\"", "	_ = bvname", "R16.7", "Separator")
+	mut("C16", "SHOW ... LIKE pattern no longer replaced by the normalizer (original defect)", "sqlparser/normalizer.go", "	node.Like = \":\" + bvname", "	_ = bvname", "R16.7", "Like")
+	mut("C16", "SHOW does not walk its filter (original defect)", "sqlparser/ast_methods.go", "	return Walk(visit, node.ShowTablesOpt.Filter)\n}", "	return nil\n}", "R16.2", "ShowTablesOpt")
 }
